@@ -219,6 +219,71 @@ func run10(c drv.Case, res *drv.Result) {
 	actor := memstore.NewActor("squasher").SetBudget(50*nObjects + 10000)
 	faultDesc := ""
 	if p.Fault > 0 {
+		// first, on clones: EVERY store call of the squash that touches a label (and every 5th other call) fails once;
+		// whatever the squash reports, the descriptors of the bundles to keep and the labels pointing at them remain
+		{
+			dry0 := env.Clone()
+			da0 := memstore.NewActor("dry0")
+			if derr := core.RepoSquash(dry0.Stores(da0), "r", opts...); derr == nil {
+				var pts []int
+				for _, e := range dry0.W.Log(0) {
+					_ = e
+				}
+				n0, _ := da0.Calls()
+				labelCalls := map[int]bool{}
+				idx := 0
+				for _, e := range dry0.W.Log(0) {
+					if e.Actor != "dry0" {
+						continue
+					}
+					idx++
+					if strings.HasPrefix(e.Key, "labels/") {
+						labelCalls[idx] = true
+					}
+				}
+				for k := 1; k <= n0; k++ {
+					if labelCalls[k] || k%5 == 0 {
+						pts = append(pts, k)
+					}
+				}
+				if len(pts) > 60 {
+					pts = pts[:60]
+				}
+				for _, k := range pts {
+					k := k
+					ce := env.Clone()
+					fa := memstore.NewActor("squasher-under-fault")
+					desc := ""
+					fa.SetFault(func(c memstore.Call) error {
+						if c.Index == k {
+							desc = fmt.Sprintf("store call %d of %d (%s.%s %s) fails", k, n0, c.Store, c.Op, c.Key)
+							res.Seen("faulted_call_kinds", c.Store+"."+c.Op)
+							return memstore.ErrInjected
+						}
+						return nil
+					})
+					serr := core.RepoSquash(ce.Stores(fa), "r", opts...)
+					res.Stat("squashes_under_a_store_fault", 1)
+					if serr != nil {
+						res.Stat("squashes_reporting_the_fault", 1)
+					}
+					for id := range survivors {
+						if raw, ok := ce.Meta.RawGet(model.GetArchivePathToBundle("r", id)); !ok || len(raw) == 0 {
+							res.Violate("bundle-removed-by-faulted-squash", "a-bundle-to-keep", "squash (retain %d, tags %s) under a fault (%s; result %v) removed the descriptor of %s, which had to be kept (labels %v)", p.RetainN, p.Tags, desc, serr, id, labels)
+							return
+						}
+					}
+					for l, id := range labels {
+						if survivors[id] {
+							if _, ok := ce.VMeta.RawGet(model.GetArchivePathToLabel("r", l)); !ok {
+								res.Violate("label-removed-by-faulted-squash", "label-of-a-kept-bundle", "squash (retain %d, tags %s) under a fault (%s; result %v) removed label %q of bundle %s, which had to be kept", p.RetainN, p.Tags, desc, serr, l, id)
+								return
+							}
+						}
+					}
+				}
+			}
+		}
 		dry := env.Clone()
 		da := memstore.NewActor("dry")
 		if derr := core.RepoSquash(dry.Stores(da), "r", opts...); derr == nil {
@@ -321,6 +386,28 @@ func run10(c drv.Case, res *drv.Result) {
 		res.Violate("most-recent-committed-bundle-removed", cfg, "squash (retain %d, tags %s) removed the most recent committed bundle %s; committed before: %v; %d leftover(s) of interrupted uploads, one newer: %v; survivors now: %v",
 			p.RetainN, p.Tags, comm[len(comm)-1], comm, leftovers, leftoverNewest, gotl)
 		return
+	}
+	if faultDesc != "" {
+		// a squash that carried on after a failed store call may leave bundles it meant to remove (deletion ignores
+		// errors on single objects by design): under a fault only losses are judged, not leftovers
+		extra := false
+		for _, id := range gotl {
+			if !survivors[id] {
+				extra = true
+			}
+		}
+		missing := false
+		for _, id := range want {
+			if !got[id] {
+				missing = true
+			}
+		}
+		if extra && !missing {
+			res.Stat("faulted_squashes_leaving_extra_bundles", 1)
+			res.Nontrivial, res.Canon = len(comm) > 0, string(c.Params)
+			res.Sample = map[string]interface{}{"committed": len(comm), "retain_n": p.RetainN, "tags": p.Tags, "fault": faultDesc, "squash_result": "nil, extra bundles left"}
+			return
+		}
 	}
 	if strings.Join(gotl, ",") != strings.Join(want, ",") {
 		cls := "removed-too-many"
